@@ -28,7 +28,8 @@ EXPLANATION = (
     "ablogAndPush(&ctx, &save, test, polarity) is followed by the matching ablogAndPop before the next push in the same function "
     "(or, for the array idiom, popped by a later loop), and two pushes for the same test in one function have opposite polarity "
     "(then-branch true, else-branch false). S6: in tfSatMap0 all four component comparisons of a function type (argument and "
-    "return, dependent and non-dependent branch) pass the inner mask computed by tfSatInner(mask). Not decided: whether the type checker finds every violation.")
+    "return, dependent and non-dependent branch) pass the inner mask computed by tfSatInner(mask). S7: ablogAnd/ablogOr, tisefAnd/tisefOr and abNewAndAll/abNewOrAll are "
+    "isomorphic under the And/Or renaming. Not decided: whether the type checker finds every violation.")
 
 FROZEN = os.path.join(os.path.dirname(__file__), "frozen")
 COUNTING = {"comsgError", "comsgNError", "comsgVError", "comsgFatal", "comsgVFatal"}
@@ -414,6 +415,27 @@ def s6(rep):
                           "type is accepted as an argument" % (common.render(strip(c["c"][2]))[:30], common.render(strip(c["c"][3]))[:30], m, inner))
 
 
+AND_OR_SIBLINGS = [("ablogic.c", "ablogAnd", "ablogOr"), ("ti_sef.c", "tisefAnd", "tisefOr"), ("absyn.c", "abNewAndAll", "abNewOrAll")]
+
+
+def s7(rep):
+    """The conjunction and disjunction cases of the condition logic and of the semantic-form inferencer are the same code up to
+    the And/Or renaming."""
+    from . import siblings
+    pairs = [("@", "And"), ("@", "Or"), ("@", "and"), ("@", "or"), ("@", "AND"), ("@", "OR")]
+    for unit, a, b in AND_OR_SIBLINGS:
+        f = common.extract(unit, trees=[a, b])
+        r = siblings.compare(f.func(a), f.func(b), pairs)
+        key = "siblings:%s:%s~%s" % (unit, a, b)
+        if r is None:
+            rep.ok("S7", key)
+        else:
+            i, ta, la, tb, lb, na, nb = r
+            rep.violation("S7", key, "%s:%d (%s) / %s:%d (%s)" % (unit, la, a, unit, lb, b),
+                          "%s and %s are the same algorithm with And/Or exchanged, but differ at token %d: `%s` against `%s`; one of the "
+                          "two was changed without its sibling" % (a, b, i, ta, tb))
+
+
 def digest(f):
     return {"s1": s1_digest(f), "s45": s45_digest(f)}
 
@@ -426,6 +448,7 @@ def run(tier, only=None):
     s1(rep, dig)
     s45(rep, dig)
     s6(rep)
+    s7(rep)
     f = common.extract("axlcomp.c", all_cfg=True)
     s2(rep, f)
     s3(rep, f)
